@@ -46,7 +46,7 @@ def rules(ctx):
         # the b == t branch: item only via the CAS
         cas = flow.find(fn, TOP_CAS)
         ctx.check(bool(cas), rid, inst + "#last-item-cas", "last item decided by a CAS on _top", "try_pop does not race thieves for the last item with a CAS on _top", fn.where(), fn=fn)
-        gt = lambda f, nid: f.nodes[nid]["k"] == "bin" and f.nodes[nid]["op"] in (">", "<") and re.search(r"\bb\b", f.expr(nid)) and re.search(r"\bt\b", f.expr(nid))
+        gt = lambda f, nid: flow.cmp_between(f, nid, (">", "<"), ["load:_bottom"], ["load:_top"])
         for r in [r for r in flow.find(fn, {"k": "return"}) if fn.kids(r) and fn.nodes[fn.kids(r)[0]].get("v") == 1]:
             ok1, p1, n1 = flow.only_via(fn, r, lambda f, nid: nid in cas or gt(f, nid), True)
             ctx.check(ok1 and n1 > 0, rid, inst + "#true|b>t-or-won-cas", "success only if more than one item was left or the CAS on _top was won",
@@ -63,7 +63,7 @@ def rules(ctx):
         for r in [r for r in flow.find(fn, {"k": "return"}) if fn.kids(r) and fn.nodes[fn.kids(r)[0]].get("v") == 1]:
             ok, p, n = flow.only_via(fn, r, lambda f, nid: nid in cas, True)
             ctx.check(ok and n > 0, rid, inst + "#true|won-cas", "a thief succeeds only if its CAS on _top succeeded", "try_steal reports success without winning the CAS", fn.where(r), fn=fn)
-        sz = lambda f, nid: f.nodes[nid]["k"] == "bin" and f.nodes[nid]["op"] in ("<=", "<", ">", ">=") and "size" in f.expr(nid)
+        sz = lambda f, nid: f.nodes[nid]["k"] == "bin" and f.nodes[nid]["op"] in ("<=", "<", ">", ">=") and flow.has_src(f, nid, "load:_bottom", "load:_top")
         for c in cas:
             ok, p, n = flow.only_via(fn, c, sz, False)
             ctx.check(ok and n > 0, rid, inst + "#cas|non-empty", "steal attempted only when size > 0", "a steal is attempted on an empty deque", fn.where(c), fn=fn)
@@ -98,16 +98,34 @@ def rules(ctx):
         ok = bool(cs) and bool(cp) and not any(fn.event_reaches(c, p) for c in cs for p in cp)
         ctx.check(ok, rid2, inst + "#copies<publish-capacity", "all copies precede the release store of the new capacity",
                   "the new capacity is published before the live items were copied (a thief indexes with the new capacity and reads an empty slot)", fn.where(), fn=fn)
-        # finite evaluation of the index arithmetic
-        loop_locals = {}
+        # finite evaluation of the index arithmetic (roles found structurally, not by name)
+        loop_var = None
         for b, i, e, n in fn.events():
-            if n["k"] == "decl":
-                for v in n["vars"]:
-                    if v["name"] in ("oldI", "newI") and "init" in v:
-                        loop_locals[v["name"]] = v["init"]
-        if "oldI" not in loop_locals or "newI" not in loop_locals:
-            ctx.broken.append("growing_circular_array::grow: index expressions oldI/newI not found")
+            if n["k"] == "un" and n["op"] in ("++",):
+                k = fn.kids(e)
+                if k and fn.nodes[k[0]]["k"] == "ref" and fn.nodes[k[0]].get("dk") == "local":
+                    nm = fn.nodes[k[0]]["name"]
+                    # the loop variable of the copy loop: its declaration has an initialiser and it is compared with the bottom parameter
+                    loop_var = nm if any(blk.get("cond") is not None and nm in [fn.nodes[x].get("name") for x in fn.subtree(blk["cond"])] for blk in fn.blocks.values() if "cond" in blk) else loop_var
+
+        def position_var(events):
+            """the local used in the index of the _data access whose definition masks the loop variable"""
+            for ev in events:
+                for x in fn.subtree(fn.kids(ev)[0]):
+                    xn = fn.nodes[x]
+                    if xn["k"] == "ref" and xn.get("dk") == "local":
+                        d = flow.unique_def(fn, xn["name"])
+                        if d is not None and fn.nodes[d]["k"] == "bin" and fn.nodes[d]["op"] in ("&", "%") and loop_var in [fn.nodes[y].get("name") for y in fn.subtree(d)]:
+                            return d
+            return None
+        lds = flow.find(fn, {"k": "call", "field": "_data[][]", "op": "load"})
+        old_def = position_var(lds)
+        new_def = position_var(cp)
+        loop_locals = {"oldI": old_def, "newI": new_def}
+        if loop_var is None or old_def is None or new_def is None or len(fn.params) < 2:
+            ctx.broken.append("growing_circular_array::grow: copy-loop idiom not recognised (loop variable %s, old/new position %s/%s)" % (loop_var, old_def, new_def))
             continue
+        P_BOTTOM, P_TOP = fn.params[0]["name"], fn.params[1]["name"]
         bad = None
         n_eval = 0
         try:
@@ -115,32 +133,27 @@ def rules(ctx):
                 for top in range(0, 4 * C):
                     for cnt in (C,):
                         bottom = top + cnt
-                        env0 = {"top": top, "bottom": bottom, "call:capacity": (lambda C=C: C)}
+                        env0 = {P_TOP: top, P_BOTTOM: bottom, "call:capacity": (lambda C=C: C)}
                         env, stop = eval_prefix(fn, env0)
-                        if "start" not in env:
-                            # loop variable initialised directly
-                            inits = [v for b, i, e, n in fn.events() if n["k"] == "decl" for v in n["vars"] if v["name"] == "i" and "init" in v]
-                            if not inits:
-                                raise Unknown("no start value")
-                            start = evalx(fn, inits[0]["init"], env)
-                        else:
-                            inits = [v for b, i, e, n in fn.events() if n["k"] == "decl" for v in n["vars"] if v["name"] == "i" and "init" in v]
-                            start = evalx(fn, inits[0]["init"], env) if inits else env["start"]
+                        inits = [v for b, i, e, n in fn.events() if n["k"] == "decl" for v in n["vars"] if v["name"] == loop_var and "init" in v]
+                        if not inits:
+                            raise Unknown("no start value")
+                        start = evalx(fn, inits[0]["init"], env)
                         n_eval += 1
 
                         def moves(i):
                             e2 = dict(env)
-                            e2["i"] = i
+                            e2[loop_var] = i
                             return evalx(fn, loop_locals["oldI"], e2) != evalx(fn, loop_locals["newI"], e2)
 
                         def want_new(i):
                             e2 = dict(env)
-                            e2["i"] = i
+                            e2[loop_var] = i
                             return evalx(fn, loop_locals["newI"], e2)
                         # reference mapping of get_entry: idx & (capacity - 1)
                         for i in range(top, bottom):
                             e2 = dict(env)
-                            e2["i"] = i
+                            e2[loop_var] = i
                             if evalx(fn, loop_locals["oldI"], e2) != (i & (C - 1)) or evalx(fn, loop_locals["newI"], e2) != (i & (2 * C - 1)):
                                 bad = "C=%d i=%d: grow maps old/new position to %d/%d, get_entry maps to %d/%d" % (
                                     C, i, evalx(fn, loop_locals["oldI"], e2), evalx(fn, loop_locals["newI"], e2), i & (C - 1), i & (2 * C - 1))
@@ -175,6 +188,6 @@ def rules(ctx):
         ctx.check(bad is None, rid2, inst + "#reindex-covers-live-range", "start index and old/new mapping agree with get_entry on %d (capacity, top) points" % n_eval,
                   "grow() re-indexing is wrong: %s" % bad, fn.where(), fn=fn)
     for fn in flow._shapes(ctx, G + "get_entry"):
-        ok = any(n["k"] == "bin" and n["op"] in ("&", "&=") and "capacity" in fn.expr(e) for e, n in enumerate(fn.nodes))
+        ok = any(n["k"] == "bin" and n["op"] in ("&", "&=") and flow.has_src(fn, e, "param#1") for e, n in enumerate(fn.nodes))
         ctx.check(ok, rid2, G + "get_entry#idx&(capacity-1)", "logical position reduced with & (capacity-1)", "get_entry does not reduce the position with the capacity mask", fn.where(), fn=fn)
     chain(ctx, rid2, G + "get", [{"k": "call", "field": "_capacity", "op": "load", "desc": "_capacity.load"}, call("get_entry")], label="capacity-load<index")
